@@ -128,6 +128,26 @@ Smp(T) ==
                          <<"obj", T[2], [i \in DOMAIN fs |-> IF FInit(fs[i]) THEN LastOf(Smp(fs[i][2])) ELSE DefaultOf(fs[i])]>> >>
     [] OTHER -> LeafSmp(T)
 
+\* ---- three-level inheritance with re-declaration in the MIDDLE class (shared by several MC modules).
+\* Chain3(C) means exactly what C means: the leaf class K(M3(G3)) declares nothing itself, M3 re-declares every field as C
+\* lists it, and the grandparent G3 declared the same names with STALE options (another default, another alias, no
+\* serialize / strategy options).  The nearest declaration is the one in effect.
+MutTags == {"list", "dict", "set", "deque", "OrderedDict", "defaultdict", "Counter", "ChainMap", "bytearray", "obj"}
+AsDflt(x) == IF x[1] \in MutTags THEN <<"fac", x>> ELSE <<"val", x>>
+StaleDflt(f) ==
+  IF f[3][1] = "req" THEN <<"req">>
+  ELSE IF f[2][1] \in {"opt", "any"} /\ f[3][2] # <<"none">> THEN <<"val", <<"none">> >>
+  ELSE LET sm == Smp(f[2])
+           alt == IF LastOf(sm) # f[3][2] THEN LastOf(sm) ELSE FirstOf(sm) IN
+       AsDflt(alt)
+StaleField(f) == <<f[1], f[2], StaleDflt(f),
+                   SelectSeq(f[4], LAMBDA o : o[1] \in {"init", "kw_only"}) \o << <<"alias", "g_" \o f[1]>> >> >>
+Chain3(C) ==
+  LET mix == SelectSeq(C[4], LAMBDA o : o[1] = "mixin")
+      G == <<"dc", "G3", [i \in DOMAIN C[3] |-> StaleField(C[3][i])], mix>>
+      M == <<"dc", "M3", C[3], mix \o << <<"bases", <<G>> >>, <<"redeclared", [i \in DOMAIN C[3] |-> C[3][i][1]]>> >> >>
+  IN  <<"dc", C[2], C[3], C[4] \o << <<"bases", <<M>> >> >> >>
+
 MapSmp(tag, K, V) ==
   LET k == Smp(K) v == Smp(V) n == IF Len(k) < Len(v) THEN Len(k) ELSE Len(v) IN
   << <<tag, <<>> >>, <<tag, << <<k[1], v[1]>> >> >>, <<tag, [i \in 1..n |-> <<k[i], v[Len(v) + 1 - i]>>]>> >>
